@@ -838,6 +838,9 @@ pub fn replay(case: &serde_json::Value) -> i32 {
     if case["part"] == "d" && super::c11d::replay(case) {
         return 1;
     }
+    if case["part"] == "h" && super::c11f::replay_h(case) {
+        return 1;
+    }
     if case["part"] == "g" && super::c11f::replay_g(case) {
         return 1;
     }
@@ -891,7 +894,9 @@ pub fn run(tier: Tier) -> i32 {
     let (e_execs, e_both) = part_e(&ctx);
     let (f_runs, f_steps) = super::c11f::part_f(&ctx);
     let (g_execs, g_points) = super::c11f::part_g(&ctx);
+    let h_runs = super::c11f::part_h(&ctx);
     let cov = json!({
+        "part_h_signal_state_at_exec_runs": h_runs,
         "part_g_trap_position_executions": g_execs,
         "part_g_wait_or_select_injection_points": g_points,
         "part_f_multi_condition_trap_histories": f_runs,
@@ -904,7 +909,7 @@ pub fn run(tier: Tier) -> i32 {
         "part_c_interactive_executions_judged": c_judged,
         "states": states,
         "transitions": transitions,
-        "traces_validated_against_impl": transitions + execs + c_execs + d_runs + e_execs + f_runs + g_execs,
+        "traces_validated_against_impl": transitions + execs + c_execs + d_runs + e_execs + f_runs + g_execs + h_runs,
         "samples": samples.take(),
         "part_a_closure_reached_in_every_configuration": closed,
         "part_b_executions": execs,
